@@ -335,6 +335,13 @@ func toOval(q int, r qres, cs *dcase) string {
 			return "ONone"
 		}
 		return "OL [" + byNames(l[0], names) + ";" + mapList(l[1], func(_ int, e interface{}) string { return one(e) }) + ";" + byNames(l[2], names) + "]"
+	case 62:
+		l, ok := v.([]interface{})
+		if !ok || len(l) != 7 {
+			return "OErr"
+		}
+		return "OL [" + generic(l[0]) + ";" + generic(l[1]) + ";" + generic(l[2]) + ";" + generic(l[3]) + ";" +
+			forestTerm(l[4], tagAt(cs.Exp, 0)) + ";" + generic(l[5]) + ";" + generic(l[6]) + "]"
 	case 63:
 		l, ok := v.([]interface{})
 		if !ok || len(l) != 3 {
@@ -374,6 +381,10 @@ func clip(s string, n int) string {
 	return s
 }
 
+// texts written with INNER_TEXT_SET: plain words, and text that would be markup
+// or a character reference if it were parsed instead of escaped
+var textWrites = []string{"newtext", "a b", "use <b>bold</b> here", "AT&amp;T", "a < b & c", "<i>x</i>", "x &lt; y", "1 > 0", "<p>", "</div> tail", "&#65;&nbsp;"}
+
 func run(out, tier string, seed int64) {
 	rng := rand.New(rand.NewSource(seed))
 	nDocs, perFile := 96, 8
@@ -381,7 +392,7 @@ func run(out, tier string, seed int64) {
 		nDocs, perFile = 1500, 25
 	}
 	m := NewMeta("C18", tier, seed)
-	m.Rule = "one evaluation = one FQL query run on (document, context, selector); a case (document, context, selector) is non-trivial when the generator's own matcher expects at least one match; distinct = distinct (html, context, css) texts among those"
+	m.Rule = "one evaluation = one FQL query run on (document, context, selector), or one history program (reads and writes through one element wrapper); a case (document, context, selector) is non-trivial when the generator's own matcher expects at least one match; distinct = distinct (html, context, css) texts among those plus distinct (html, css, history program) texts"
 	g := &gen{rng: rng, cap: 22}
 	qs := allQueries()
 	groups := []string{"main", "style", "wattr", "wstyle", "wtext", "whtml"}
@@ -391,10 +402,14 @@ func run(out, tier string, seed int64) {
 	var fileBuf *bufio.Writer
 	var file *os.File
 	genDisagree := 0
+	var histRows []string // the histories of the documents of the current file
+	nHist := 0
 	closeFile := func() {
 		if file != nil {
 			fmt.Fprintln(fileBuf, "].")
-			fmt.Fprintln(fileBuf, "Definition M := Eval vm_compute in mismatches AN SN BASE DOCS.")
+			fmt.Fprintf(fileBuf, "Definition HIST : list hcase := [\n%s\n].\n", strings.Join(histRows, ";\n"))
+			histRows = nil
+			fmt.Fprintln(fileBuf, "Definition M := Eval vm_compute in (mismatches AN SN BASE DOCS ++ hmismatches BASE DOCS HIST)%list.")
 			fmt.Fprintln(fileBuf, "Print M.")
 			Must(fileBuf.Flush())
 			Must(file.Close())
@@ -453,6 +468,7 @@ func run(out, tier string, seed int64) {
 		}
 		docIdx := map[string]interface{}{"html": htmlText}
 		var caseIdx []interface{}
+		var histIdx []interface{}
 		fmt.Fprintf(fileBuf, " (e \"#document\" [] [] %s, [\n", coqForest(doc.Kids))
 		for ci, cs := range cases {
 			ctxNode, ctxSel, ctxCoq, ctxName := doc, "", "None", "document"
@@ -480,7 +496,7 @@ func run(out, tier string, seed int64) {
 				val = "w w" // attribute values may contain spaces
 			}
 			cs.P = map[string]string{"h": htmlText, "c": ctxSel, "s": css, "x": xp, "xc": "count(" + xp + ")",
-				"k": wk, "v": val, "t": []string{"newtext", "a b"}[rng.Intn(2)], "f": fsb.String()}
+				"k": wk, "v": val, "t": textWrites[rng.Intn(len(textWrites))], "f": fsb.String()}
 			shape := "simple"
 			if len(cs.S) > 1 {
 				shape = "compound"
@@ -542,6 +558,44 @@ func run(out, tier string, seed int64) {
 					}
 				}
 			}
+			// histories of reads and writes through one wrapper of the first match
+			if cs.Ctx == nil && len(cs.Exp) > 0 {
+				if _, numbered := cs.Exp[0].attr("data-n"); numbered {
+					for k := 0; k < 2; k++ {
+						ops, scenario := genHistory(rng)
+						prog := histProgram(ops)
+						resp, note := rn.do(unitReq{ID: di*100 + ci, Group: "hist", P: map[string]string{"h": htmlText, "s": css}, Prog: prog})
+						m.Evaluations++
+						nHist++
+						r := resp.Res[64]
+						hj := len(histIdx)
+						var coqOps, fqlOps []string
+						var readAt []int
+						for oi, o := range ops {
+							coqOps = append(coqOps, o.Coq)
+							fqlOps = append(fqlOps, o.FQL)
+							if o.Read {
+								readAt = append(readAt, oi)
+							}
+							m.Count("hist-op:" + o.Form)
+						}
+						m.Count("hist-core:" + scenario)
+						histRows = append(histRows, fmt.Sprintf(" (%d%%N, %d%%N, %s, [%s], %s)", di%perFile, hj, cs.S.coq(), strings.Join(coqOps, ";"), histObs(ops, r, note)))
+						impl := clip(r.Out, 600)
+						if note != "" {
+							impl = note
+							m.Count("hist-outcome:crash")
+						} else if r.Err != "" {
+							impl = r.Err + ": " + clip(r.Msg, 200)
+							m.Count("hist-outcome:" + r.Err)
+						} else {
+							m.Count("hist-outcome:ok")
+						}
+						distinct[sha1.Sum([]byte(htmlText+"|"+css+"|"+prog))] = struct{}{}
+						histIdx = append(histIdx, map[string]interface{}{"css": css, "ops": fqlOps, "reads": readAt, "program": prog, "impl": impl, "first_match": cs.Exp[0].Tag})
+					}
+				}
+			}
 			// drift diagnostic (not the verdict): generator's matcher against ELEMENTS
 			var ids []string
 			for _, n := range cs.Exp {
@@ -594,6 +648,7 @@ func run(out, tier string, seed int64) {
 		}
 		fmt.Fprint(fileBuf, " ])")
 		docIdx["cases"] = caseIdx
+		docIdx["hist"] = histIdx
 		docsIdx = append(docsIdx, docIdx)
 	}
 	closeFile()
@@ -607,6 +662,7 @@ func run(out, tier string, seed int64) {
 	m.DistinctNontrivial = len(distinct)
 	m.Index["docs"] = docsIdx
 	m.Index["fql"] = fq
+	m.Extra["histories"] = nHist
 	m.Extra["worker_crashes"] = rn.crashes
 	m.Extra["worker_starts"] = rn.restarts
 	m.Extra["generator_matcher_vs_ELEMENTS_disagreements"] = genDisagree
